@@ -1,5 +1,5 @@
 (* C16 — Computing the next occurrence always terminates (statements only). *)
-From EAS Require Import Base Civil Time Filters Replace Producers ProdStrict ProdEarliest ProdTerm.
+From EAS Require Import Base Civil Time Filters Replace Producers ProdStrict ProdEarliest ProdTerm ProdGroup ProdCost.
 From EASGen Require Import Generated.
 From Coq Require Import String.
 Open Scope string_scope.
@@ -39,3 +39,41 @@ Theorem C16_interval_unsat_refuted :
   exists f, forall z fuel c iv dt, next_interval z fuel c iv (Some f) dt = OutOfFuel.
 Proof. exact interval_unsat_refuted. Qed.
 Print Assumptions C16_interval_unsat_refuted.
+
+(* ---- additions to props/C16.v; add `ProdGroup ProdCost` to the `From EAS Require Import ...` line of the header ---- *)
+
+(* the instrumented evaluator (every loop round counted, nested loops included) computes what get_next computes *)
+Theorem C16_get_next_cost_fst : forall E p st dt, fst (get_next_cost E p st dt) = get_next E p st dt.
+Proof. exact get_next_cost_fst. Qed.
+Print Assumptions C16_get_next_cost_fst.
+
+(* a bounded loop runs its body at most p times: count <= p * (B + 1) when the nested work of a round is <= B *)
+Theorem C16_iter_until_count :
+  forall (St Rt : Type) p (f : St -> (St + Rt) * N) s (B : N),
+    (forall s, (snd (f s) <= B)%N) -> (loop_cost p f s <= N.pos p * (B + 1))%N.
+Proof. exact @iter_until_count. Qed.
+Print Assumptions C16_iter_until_count.
+
+(* work bound: for every expression, state, reference instant, table, oracle: the number of loop rounds of a query
+   is at most bound E p, a closed form in the expression and the interval fuel:
+   time-of-day 99 999; interval: fuel; offset/earliest/latest/jitter: 99 999 * (1 + bound inner);
+   group: 99 999 * (1 + sum of the members); sun: 99 999 * (1 + 367) *)
+Theorem C16_cost_bound : forall E p st dt, (cost E p st dt <= bound E p)%N.
+Proof. exact cost_bound. Qed.
+Print Assumptions C16_cost_bound.
+
+Theorem C16_bound_constants : LB = 99999%N /\ SUN_DAYS = 367%N.
+Proof. exact bound_constants. Qed.
+Print Assumptions C16_bound_constants.
+
+Theorem C16_bound_depends_on_fuel_only :
+  forall E E', interval_fuel E = interval_fuel E' -> forall p, bound E p = bound E' p.
+Proof. exact bound_depends_on_fuel_only. Qed.
+Print Assumptions C16_bound_depends_on_fuel_only.
+
+(* F9 seen through the counter: a never-accepting filter makes the interval trigger spend its whole budget *)
+Theorem C16_interval_unsat_cost :
+  forall E id start iv st dt,
+    cost E (PInterval id start iv (Some (FDay []))) st dt = bound E (PInterval id start iv (Some (FDay []))).
+Proof. exact interval_unsat_cost. Qed.
+Print Assumptions C16_interval_unsat_cost.
